@@ -305,7 +305,7 @@ def call_bind(ctx: Ctx) -> List[Ob]:
 
 
 # ------------------------------------------------------------------ UNCALLED
-@rule("UNCALLED", ["C04", "C15"], floor=3, section="3.6")
+@rule("UNCALLED", ["C04", "C15", "C17"], floor=3, section="3.6")
 def uncalled(ctx: Ctx) -> List[Ob]:
     """a reference to a method (not a property) that is bound to a local is called before it is used as a value; it never flows un-called into a non-callable parameter"""
     obs: List[Ob] = []
